@@ -609,8 +609,14 @@ func (v *FnVC) arith(r *Term, ii intInfo, pos token.Pos, what string) *Term {
 		half := BigLit(pow2big(ii.bits - 1))
 		return v.define("w", Sub(EMod(Add(r, half), BigLit(pow2big(ii.bits))), half))
 	}
-	r = v.define("a", r)
 	n := v.ord("overflow")
+	if v.g.wrapSites[v.fn][n] {
+		// the no-overflow obligation of this site failed earlier in this run: fall back to
+		// Go's defined wrap-around semantics for it (nothing is assumed about the result)
+		half := BigLit(pow2big(ii.bits - 1))
+		return v.define("w", Sub(EMod(Add(r, half), BigLit(pow2big(ii.bits))), half))
+	}
+	r = v.define("a", r)
 	v.oblige("overflow", fmt.Sprintf("overflow#%d", n), v.curGuard,
 		And(Le(BigLit(ii.min()), r), Le(r, BigLit(ii.max()))), v.posOf(pos), "signed "+what+" does not overflow")
 	return r
@@ -891,6 +897,11 @@ func (v *FnVC) execConvert(in *ssa.Convert, st *State) {
 			return
 		}
 		n := v.ord("overflow")
+		if v.g.wrapSites[v.fn][n] {
+			half := BigLit(pow2big(ti.bits - 1))
+			v.regs[in] = Val{T: v.define("conv", Sub(EMod(Add(x.T, half), BigLit(pow2big(ti.bits))), half)), Typ: to}
+			return
+		}
 		v.oblige("overflow", fmt.Sprintf("overflow#%d", n), v.curGuard,
 			And(Le(BigLit(ti.min()), x.T), Le(x.T, BigLit(ti.max()))), v.posOf(in.Pos()), "conversion to "+to.String()+" keeps the value")
 		v.regs[in] = Val{T: x.T, Typ: to}
@@ -1443,6 +1454,50 @@ func (v *FnVC) localByName(name string, l *Loop, st *State) (Val, bool) {
 			cands = append(cands, a)
 		}
 	}
+	// loop-form independence: at the head of a range loop the key variable denotes the
+	// next index (rangeindex+1); at the head of a counted loop `rangeindex` denotes the
+	// induction variable minus one.  A contract therefore survives a change between
+	// `for i := 0; i < len(x); i++` and `for i := range x`.
+	if l != nil && want < 0 {
+		if val, ok := v.loopCounterAlias(name, l, st); ok {
+			return val, true
+		}
+	}
+	// lexical scoping: at a loop only declarations visible at the loop are candidates
+	if l != nil && l.MinPos.IsValid() && want < 0 {
+		var vis []*ssa.Alloc
+		for _, a := range cands {
+			if v.visibleAt(a, name, l.MinPos) {
+				vis = append(vis, a)
+			}
+		}
+		cands = vis
+	}
+	if name == "rangeindex" && l != nil && want < 0 {
+		// only the range counters of this loop or of an enclosing loop are meant
+		var own []*ssa.Alloc
+		for _, a := range cands {
+			for _, r := range *a.Referrers() {
+				if _, dbg := r.(*ssa.DebugRef); dbg {
+					continue
+				}
+				hit := false
+				for q := l; q != nil; q = q.Parent {
+					if q.Head == r.Block() {
+						hit = true
+					}
+				}
+				if hit {
+					own = append(own, a)
+					break
+				}
+			}
+		}
+		cands = own
+		if len(cands) == 0 {
+			return v.countedLoopIndex(l, st)
+		}
+	}
 	if len(cands) == 0 {
 		return Val{}, false
 	}
@@ -1495,6 +1550,125 @@ func (v *FnVC) localByName(name string, l *Loop, st *State) (Val, bool) {
 		t = zeroTerm(et)
 	}
 	return Val{T: t, Typ: et}, true
+}
+
+// visibleAt: the declaration behind alloc a (a variable called name) is in scope at pos.
+func (v *FnVC) visibleAt(a *ssa.Alloc, name string, pos token.Pos) bool {
+	if !a.Pos().IsValid() || v.pkg == nil {
+		return true
+	}
+	sc := v.pkg.Scope().Innermost(a.Pos())
+	for sc != nil {
+		if obj := sc.Lookup(name); obj != nil && obj.Pos() == a.Pos() {
+			return sc.Contains(pos) || !sc.Pos().IsValid()
+		}
+		sc = sc.Parent()
+	}
+	return true // declaration scope not found (parameters, results): do not filter
+}
+
+// loopCounterAlias implements the two loop-form aliases described in localByName.
+func (v *FnVC) loopCounterAlias(name string, l *Loop, st *State) (Val, bool) {
+	tInt := types.Typ[types.Int]
+	// the rangeindex alloc read in the head of l, if l is a range loop over a slice/array/string
+	var ri *ssa.Alloc
+	var inc *ssa.BinOp
+	for _, in := range l.Head.Instrs {
+		if b, ok := in.(*ssa.BinOp); ok && b.Op == token.ADD {
+			if ld, ok := b.X.(*ssa.UnOp); ok && ld.Op == token.MUL {
+				if a, ok := ld.X.(*ssa.Alloc); ok && a.Comment == "rangeindex" {
+					ri, inc = a, b
+				}
+			}
+		}
+	}
+	if ri != nil {
+		if name == "rangeindex" {
+			return Val{}, false
+		}
+		// is `name` the key variable of this range loop?  (*key = rangeindex+1 in the body)
+		for b := range l.Body {
+			for _, in := range b.Instrs {
+				s, ok := in.(*ssa.Store)
+				if !ok {
+					continue
+				}
+				fromIndex := s.Val == ssa.Value(inc)
+				if ld, isLoad := s.Val.(*ssa.UnOp); isLoad && ld.Op == token.MUL && ld.X == ssa.Value(ri) {
+					fromIndex = true
+				}
+				if fromIndex {
+					if a, ok := s.Addr.(*ssa.Alloc); ok && a.Comment == name {
+						cur, ok := st.vars[v.locals[ri]]
+						if !ok {
+							return Val{}, false
+						}
+						return Val{T: Add(cur, IntLit(1)), Typ: tInt}, true
+					}
+				}
+			}
+		}
+		return Val{}, false
+	}
+	return Val{}, false
+}
+
+// countedLoopIndex: `rangeindex` at a counted loop = its induction variable - 1.
+func (v *FnVC) countedLoopIndex(l *Loop, st *State) (Val, bool) {
+	tInt := types.Typ[types.Int]
+	// counted loop: the unique int local whose only stores inside the loop are `x = x + 1`
+	// and which the head compares
+	var ind *ssa.Alloc
+	count := 0
+	for a := range v.locals {
+		if v.lstruct[a] || !types.Identical(a.Type().(*types.Pointer).Elem(), tInt) {
+			continue
+		}
+		stores, ok := 0, true
+		for _, r := range *a.Referrers() {
+			s, isStore := r.(*ssa.Store)
+			if !isStore || !l.Body[s.Block()] || s.Addr != ssa.Value(a) {
+				continue
+			}
+			stores++
+			b, isAdd := s.Val.(*ssa.BinOp)
+			if !isAdd || b.Op != token.ADD {
+				ok = false
+				continue
+			}
+			ld, isLoad := b.X.(*ssa.UnOp)
+			c, isConst := b.Y.(*ssa.Const)
+			if !isLoad || ld.Op != token.MUL || ld.X != ssa.Value(a) || !isConst || c.Value == nil || c.Int64() != 1 {
+				ok = false
+			}
+		}
+		if stores != 1 || !ok {
+			continue
+		}
+		// compared in the head
+		cmp := false
+		for _, in := range l.Head.Instrs {
+			if b, isB := in.(*ssa.BinOp); isB && (b.Op == token.LSS || b.Op == token.LEQ || b.Op == token.GTR || b.Op == token.GEQ || b.Op == token.NEQ) {
+				for _, o := range []ssa.Value{b.X, b.Y} {
+					if ld, isLoad := o.(*ssa.UnOp); isLoad && ld.Op == token.MUL && ld.X == ssa.Value(a) {
+						cmp = true
+					}
+				}
+			}
+		}
+		if cmp {
+			ind = a
+			count++
+		}
+	}
+	if count != 1 {
+		return Val{}, false
+	}
+	cur, ok := st.vars[v.locals[ind]]
+	if !ok {
+		return Val{}, false
+	}
+	return Val{T: Sub(cur, IntLit(1)), Typ: tInt}, true
 }
 
 func (v *FnVC) loopHead(l *Loop, pre *State, reach *Term) *State {
